@@ -55,6 +55,8 @@ var Prop = &engine.Prop{
 		{Name: "ctx-reuse", Quick: 400, Thorough: 16000, Fn: ctxReuseCase},
 		{Name: "late-run", Quick: 600, Thorough: 30000, Fn: lateRunCase},
 		{Name: "double-stop", Quick: 8, Thorough: 160, Fn: doubleStopCase},
+		{Name: "multi-exec", Quick: 60, Thorough: 2400, Fn: multiExecCase},
+		{Name: "ctx-handoff", Quick: 400, Thorough: 16000, Fn: ctxHandoffCase},
 	},
 	Floors: map[string]int64{
 		"queued_behind_running":   500,
